@@ -45,6 +45,27 @@ func init() {
 	Checks["C09"] = &Check{Level: "model_checking", Run: CheckK("C09", []string{"restart", "C09.nocache-op", "C09.bounded-cache-states"}), QuickBudget: 300, ThoroughBudget: 1800, ReplayOps: kReplay("C09")}
 }
 
+func init() {
+	Checks["C15"] = &Check{Level: "model_checking", Run: CheckC15, QuickBudget: 300, ThoroughBudget: 1800,
+		ReplayOps: func(v *Viol) []string {
+			var hist []string
+			b, _ := json.Marshal(v.Ops)
+			json.Unmarshal(b, &hist)
+			for _, cfg := range c15Plan(true) {
+				if "C15/"+cfg.name() == v.Harness {
+					_, viols, _ := c15Run(cfg, hist)
+					fmt.Println("history:", hist)
+					var out []string
+					for _, kv := range viols {
+						out = append(out, kv.Sig+": "+kv.Msg)
+					}
+					return out
+				}
+			}
+			return []string{"unknown configuration " + v.Harness}
+		}}
+}
+
 // kReplay re-executes an operation-history counterexample of the K space.
 func kReplay(prop string) func(v *Viol) []string {
 	return func(v *Viol) []string {
